@@ -273,7 +273,7 @@ def sec_history(ctx, rng, case):
 
     h = Hist(rng, cirq)
     # start from every constructor path
-    start = int(rng.integers(6))
+    start = int(rng.integers(7))
     init_ops = [h.new_op()[0] for _ in range(int(rng.integers(0, 8)))]
     strat0 = getattr(cirq.InsertStrategy, STRATS[int(rng.integers(len(STRATS)))])
     if start == 0:
@@ -291,9 +291,18 @@ def sec_history(ctx, rng, case):
     elif start == 4:
         c = cirq.Circuit(init_ops).freeze().unfreeze(copy=bool(rng.integers(2)))
         h.log.append("freeze().unfreeze()")
-    else:
+    elif start == 5:
         c = cirq.Circuit(init_ops).with_tags("tagged")
         h.log.append("Circuit(ops).with_tags")
+    else:
+        # a mix of whole Moments and loose operations (keeps the append placement cache alive)
+        tree = []
+        for o in init_ops:
+            tree.append(cirq.Moment([o]) if rng.random() < 0.4 else o)
+        c = cirq.Circuit(tree)
+        h.log.append("Circuit(mix of %d Moments/ops: %s)" % (len(tree), ["M" if isinstance(x, cirq.Moment) else "o" for x in tree]))
+        # loose ops may slide left but never past a conflicting earlier item; a Moment always starts a new moment at the end
+        check_edit(ctx, h, "constructor:mixed", [], positions(c), [op_id(o) for o in init_ops], [], 0, False)
     ins0 = [op_id(o) for o in init_ops]
     if start == 0:
         check_edit(ctx, h, "constructor:" + str(strat0), [], positions(c), ins0, [], 0, False)
@@ -305,7 +314,7 @@ def sec_history(ctx, rng, case):
         before = positions(c)
         before_moments = list(c.moments)
         L0 = len(c)
-        kind = int(rng.integers(24))
+        kind = int(rng.integers(27))
         what = None
         try:
             if kind <= 5:  # append / insert with a strategy
@@ -564,6 +573,40 @@ def sec_history(ctx, rng, case):
                 check_edit(ctx, h, what, before, after, ids, [], None, True, qubit_conflicts_only=True)
                 pa = dict((i, mi) for mi, i in after)
                 ctx.check(all(pa[i] >= start for i in ids), "placement-documented", "C05:insert_at_frontier-before-start", "an operation was placed before the start moment", history=h.log[-8:])
+            elif kind in (24, 25, 26):  # append a whole Moment at the end, then keep appending loose ops (placement cache path)
+                ops, used = [], set()
+                for _ in range(int(rng.integers(1, 4))):
+                    o, i = h.new_op()
+                    if h.info[i][0] & used or any(h.conflict(i, j) for _, j in ops):
+                        del h.info[i]
+                        continue
+                    used |= h.info[i][0]
+                    ops.append((o, i))
+                what = "append-moment"
+                h.log.append("append(Moment%s)" % [i for _, i in ops])
+                if kind == 24:
+                    c.append(cirq.Moment([o for o, _ in ops]))
+                elif kind == 25:
+                    c += cirq.Moment([o for o, _ in ops])
+                else:
+                    c.append([cirq.Moment([o for o, _ in ops])])
+                after = positions(c)
+                check_edit(ctx, h, what, before, after, [i for _, i in ops], [], L0, False)
+                pa = dict((i, mi) for mi, i in after)
+                ctx.check(all(pa[i] == L0 for _, i in ops) and len(c) == L0 + 1, "placement-documented", "C05:appended-moment-not-at-end", "", history=h.log[-8:])
+                # follow up immediately with a loose op appended with the default strategy
+                o2, i2 = h.new_op()
+                h.log.append("append([%d])" % i2)
+                b2 = positions(c)
+                L1 = len(c)
+                c.append(o2)
+                a2 = positions(c)
+                check_edit(ctx, h, "append-after-moment", b2, a2, [i2], [], L1, False)
+                pa2 = dict((i, mi) for mi, i in a2)
+                pb2 = dict((i, mi) for mi, i in b2)
+                last = max([pb2[e] for e in pb2 if h.conflict(e, i2)], default=-1)
+                ctx.check(pa2[i2] == last + 1, "placement-documented", "C05:EARLIEST-append-placement",
+                          "appended operation %d landed in moment %d, earliest allowed is %d" % (i2, pa2[i2], last + 1), history=h.log[-8:])
             else:  # a frozen view taken earlier must not change under later mutation
                 f = c.freeze()
                 snap = list(f.moments)
